@@ -206,6 +206,10 @@ macro_rules! arr_dispatch {
             17 => $f::<17, $($g),*>($($args),*),
             32 => $f::<32, $($g),*>($($args),*),
             33 => $f::<33, $($g),*>($($args),*),
+            127 => $f::<127, $($g),*>($($args),*),
+            128 => $f::<128, $($g),*>($($args),*),
+            255 => $f::<255, $($g),*>($($args),*),
+            256 => $f::<256, $($g),*>($($args),*),
             other => panic!("array length {other} is not in the dispatch table"),
         }
     };
